@@ -189,6 +189,41 @@ func New(p *core.Program) *Interp {
 	return in
 }
 
+// funcValue makes a callable value of a declared function or method (used as a
+// value: stored in a table, passed as an argument). A stub registered under the
+// function's name takes precedence, exactly as for a direct call.
+func (in *Interp) funcValue(fn *types.Func, recv Value) Value {
+	name := core.ObjName(fn)
+	sig, _ := fn.Type().(*types.Signature)
+	if sig == nil || (sig.Recv() != nil && recv == nil) {
+		return nil
+	}
+	if sig.Recv() != nil {
+		if _, isIface := sig.Recv().Type().Underlying().(*types.Interface); isIface {
+			return nil
+		}
+	}
+	target := in.Prog.FuncOf(fn)
+	if target == nil {
+		if _, ok := in.Stubs[name]; !ok {
+			return nil
+		}
+	}
+	return &Stub{Name: name, Fn: func(in *Interp, args []Value) ([]Value, error) {
+		if st, ok := in.Stubs[name]; ok {
+			return st(in, recv, args)
+		}
+		if sig.Variadic() {
+			n := sig.Params().Len() - 1
+			if len(args) >= n {
+				rest := append([]Value{}, args[n:]...)
+				args = append(append([]Value{}, args[:n]...), &Slice{Elems: &rest})
+			}
+		}
+		return in.Call(target, recv, args)
+	}}
+}
+
 // global returns the value of a package-level variable: from Globals, or by
 // evaluating its initializer when that is a constant-only composite literal.
 func (in *Interp) global(o types.Object) (Value, bool) {
@@ -1398,6 +1433,11 @@ func (f *frame) exprMulti(e ast.Expr) ([]Value, error) {
 		if vr := f.env.lookup(o); vr != nil {
 			return []Value{vr.v}, nil
 		}
+		if fn, isFn := o.(*types.Func); isFn {
+			if v := f.in.funcValue(fn, nil); v != nil {
+				return []Value{v}, nil
+			}
+		}
 		if o != nil && o.Parent() != nil && o.Pkg() != nil && o.Parent() == o.Pkg().Scope() {
 			if v, ok := f.in.global(o); ok {
 				return []Value{v}, nil
@@ -1454,6 +1494,22 @@ func (f *frame) exprMulti(e ast.Expr) ([]Value, error) {
 				return nil, unsup(e.Pos(), "field %s through element pointer", e.Sel.Name)
 			}
 			return nil, unsup(e.Pos(), "field selection on %T", b)
+		}
+		if fn, isFn := f.info.Uses[e.Sel].(*types.Func); isFn {
+			if sel := f.info.Selections[e]; sel != nil && sel.Kind() == types.MethodVal {
+				// method value x.M: bind the receiver now
+				rv, err := f.expr(e.X)
+				if err != nil {
+					return nil, err
+				}
+				if v := f.in.funcValue(fn, copyVal(rv)); v != nil {
+					return []Value{v}, nil
+				}
+			} else if sel == nil {
+				if v := f.in.funcValue(fn, nil); v != nil {
+					return []Value{v}, nil
+				}
+			}
 		}
 		if o := f.info.Uses[e.Sel]; o != nil && o.Pkg() != nil && o.Parent() == o.Pkg().Scope() {
 			if v, ok := f.in.global(o); ok {
